@@ -26,10 +26,11 @@ def main():
     ap.add_argument("--demo", default=None)
     ap.add_argument("--keep-replay", default=None)
     ap.add_argument("--shrink", action="store_true")
+    ap.add_argument("--base", default="HEAD", help="commit of /repo the change is applied to (default HEAD)")
     a = ap.parse_args()
     base = tempfile.mkdtemp(prefix="jxsim_mut_")
     wt = os.path.join(base, "wt")
-    subprocess.run(["git", "-C", "/repo", "worktree", "add", "-q", "--detach", wt, "HEAD"], check=True)
+    subprocess.run(["git", "-C", "/repo", "worktree", "add", "-q", "--detach", wt, a.base], check=True)
     rc = 0
     try:
         if a.demo:
